@@ -6,7 +6,7 @@ os.chdir(VERIF)
 os.makedirs('.work/scratch', exist_ok=True)
 steps = [
     ['python3', 'tools/build.py', 'san', '--harness', 'worker'],
-    ['python3', 'tools/build.py', 'fuzz', '--harness', 'fuzz_json'],
+    ['python3', 'tools/build.py', 'fuzz', '--harness', 'fuzz_json', 'fuzz_scxml'],
     ['python3', 'tools/build.py', 'plain', '--harness', 'worker'],
 ]
 for s in steps:
